@@ -6,7 +6,7 @@
 
 extern size_t gh_w;        /* witness byte index for copies */
 extern size_t gh_nul;      /* witness: index of a NUL byte that bounds a string */
-extern int gh_free_n;      /* number of free() calls */
+extern unsigned gh_free_n;      /* number of free() calls */
 extern void *gh_free_last; /* last pointer passed to free() */
 extern void *gh_free_prev; /* the one before */
 
@@ -16,6 +16,8 @@ __CPROVER_requires(n == 0 || (__CPROVER_w_ok(dst, n) && __CPROVER_r_ok(src, n)))
 __CPROVER_assigns(n > 0: __CPROVER_object_upto(dst, n))
 __CPROVER_ensures(RET == dst)
 __CPROVER_ensures(gh_w < n ==> ((char *) dst)[gh_w] == OLD(((const char *) src)[gh_w < n ? gh_w : 0]))
+/* second fixed witness: the last byte */
+__CPROVER_ensures(n > 0 ==> ((char *) dst)[n - 1] == OLD(((const char *) src)[n > 0 ? n - 1 : 0]))
 ;
 /* ASSUMED: memmove copies n bytes (regions may overlap), touches nothing else */
 void *memmove(void *dst, const void *src, size_t n)
@@ -23,6 +25,8 @@ __CPROVER_requires(n == 0 || (__CPROVER_w_ok(dst, n) && __CPROVER_r_ok(src, n)))
 __CPROVER_assigns(n > 0: __CPROVER_object_upto(dst, n))
 __CPROVER_ensures(RET == dst)
 __CPROVER_ensures(gh_w < n ==> ((char *) dst)[gh_w] == OLD(((const char *) src)[gh_w < n ? gh_w : 0]))
+/* second fixed witness: the last byte */
+__CPROVER_ensures(n > 0 ==> ((char *) dst)[n - 1] == OLD(((const char *) src)[n > 0 ? n - 1 : 0]))
 ;
 /* ASSUMED: strnlen reads at most n bytes, stops at the first NUL */
 size_t strnlen(const char *s, size_t n)
@@ -37,7 +41,7 @@ __CPROVER_ensures((gh_w < RET && __CPROVER_r_ok(s, RET)) ==> s[gh_w < RET ? gh_w
 /* ASSUMED: free releases p; modelled as an observer only (ownership is decided by the bounded
  * jobs that use CBMC's real malloc/free model) */
 void free(void *p)
-__CPROVER_requires(gh_free_n >= 0 && gh_free_n < 1000000)
+__CPROVER_requires(1)
 __CPROVER_assigns(gh_free_n, gh_free_last, gh_free_prev)
 __CPROVER_ensures(gh_free_n == OLD(gh_free_n) + 1 && gh_free_last == p && gh_free_prev == OLD(gh_free_last))
 ;
